@@ -313,13 +313,14 @@ class CountingFusedWrapper(_KDWrapper):
     """a wrapper that declares x and class as jointly loaded; every load (joint or single) gets a running number, so a
     delivered sample shows whether its fused members came from ONE joint load"""
 
-    def __init__(self, dataset):
+    def __init__(self, dataset, joint=True):
         super().__init__(dataset=dataset)
         self.loads = 0
+        self.joint = joint  # an instance may be configured to load the two items separately (e.g. when only one is ever needed)
 
     @property
     def fused_operations(self):
-        return super().fused_operations + [["x", "class"]]
+        return super().fused_operations + ([["x", "class"]] if self.joint else [])
 
     def _next(self):
         self.loads += 1
